@@ -288,7 +288,11 @@ class SuperSpeedStreamInEndpoint(Elaboratable):
                     # Otherwise, we entered a transmit path without any data in the buffer.
                     with m.Else():
                         # ... send a ZLP...
-                        m.d.comb += interface.tx_zlp.eq(1)
+                        m.d.comb += [
+                            interface.tx_zlp              .eq(1),
+                            interface.tx_sequence_number  .eq(sequence_number),
+                            interface.tx_endpoint_number  .eq(self._endpoint_number),
+                        ]
 
                         # ... and clear the need to follow up with one, since we've just sent a short packet.
                         m.d.ss += [
@@ -386,11 +390,13 @@ class SuperSpeedStreamInEndpoint(Elaboratable):
                     # as an indication that we need to re-try the given packet.
                     with m.If(handshakes_in.retry_required | ~sequence_advancing):
 
-                        # In this case, we'll re-transmit the relevant data, either by sending another ZLP...
+                        # In this case, we'll re-transmit the relevant data, either by sending another ZLP
+                        # (with the sequence number it had the first time)...
                         with m.If(last_packet_was_zlp):
                             m.d.comb += [
-                                interface.tx_zlp.eq(1),
-                                advance_sequence.eq(1),
+                                interface.tx_zlp              .eq(1),
+                                interface.tx_sequence_number  .eq(sequence_number),
+                                interface.tx_endpoint_number  .eq(self._endpoint_number),
                             ]
 
                         # ... or by moving right back into sending a data packet.
@@ -417,12 +423,16 @@ class SuperSpeedStreamInEndpoint(Elaboratable):
 
                             # If we are requesting another packet immediately, we can said ZLP our immediately,
                             # and then continue waiting for the next ACK.
+                            # Either way, the packet before it has been acknowledged, so our sequence number advances.
+                            m.d.comb += advance_sequence.eq(1)
+
                             with m.If(is_in_token):
 
-                                # ... send a ZLP...
+                                # ... send a ZLP; which is already numbered with our new sequence number...
                                 m.d.comb += [
-                                    interface.tx_zlp.eq(1),
-                                    advance_sequence.eq(1),
+                                    interface.tx_zlp              .eq(1),
+                                    interface.tx_sequence_number  .eq(next_sequence_number),
+                                    interface.tx_endpoint_number  .eq(self._endpoint_number),
                                 ]
 
                                 # ... and clear the need to follow up with one, since we've just sent a short packet.
